@@ -192,20 +192,23 @@ impl Hypercore {
                         match tree.truncate(tree_upgrade.length, tree_upgrade.fork, None)? {
                             Either::Right(value) => value,
                             Either::Left(instructions) => {
-                                let infos = storage.read_infos(&instructions).await?;
-                                match tree.truncate(
-                                    tree_upgrade.length,
-                                    tree_upgrade.fork,
-                                    Some(&infos),
-                                )? {
-                                    Either::Right(value) => value,
-                                    Either::Left(_) => {
-                                        return Err(HypercoreError::InvalidOperation {
-                                            context: format!(
-                                                "Could not truncate tree to length {}",
-                                                tree_upgrade.length
-                                            ),
-                                        });
+                                // A node the first pass found in the node cache may have been
+                                // evicted by the next: keep reading until nothing is missing.
+                                let mut instructions = instructions;
+                                let mut infos: Vec<StoreInfo> = vec![];
+                                loop {
+                                    infos.extend(storage.read_infos_to_vec(&instructions).await?);
+                                    match tree.truncate(
+                                        tree_upgrade.length,
+                                        tree_upgrade.fork,
+                                        Some(&infos),
+                                    )? {
+                                        Either::Right(value) => {
+                                            break value;
+                                        }
+                                        Either::Left(new_instructions) => {
+                                            instructions = new_instructions;
+                                        }
                                     }
                                 }
                             }
@@ -423,14 +426,18 @@ impl Hypercore {
         let clear_offset = match self.tree.byte_offset(start, None)? {
             Either::Right(value) => value,
             Either::Left(instructions) => {
-                let new_infos = self.storage.read_infos_to_vec(&instructions).await?;
-                infos.extend(new_infos);
-                match self.tree.byte_offset(start, Some(&infos))? {
-                    Either::Right(value) => value,
-                    Either::Left(_) => {
-                        return Err(HypercoreError::InvalidOperation {
-                            context: format!("Could not read offset for index {start} from tree"),
-                        });
+                // A node the first pass found in the node cache may have been evicted by
+                // the next: keep reading until nothing is missing.
+                let mut instructions = instructions;
+                loop {
+                    infos.extend(self.storage.read_infos_to_vec(&instructions).await?);
+                    match self.tree.byte_offset(start, Some(&infos))? {
+                        Either::Right(value) => {
+                            break value;
+                        }
+                        Either::Left(new_instructions) => {
+                            instructions = new_instructions;
+                        }
                     }
                 }
             }
@@ -509,20 +516,21 @@ impl Hypercore {
                 {
                     Either::Right(value) => value,
                     Either::Left(instructions) => {
-                        let infos = self.storage.read_infos_to_vec(&instructions).await?;
-                        match self.tree.byte_offset_in_changeset(
-                            block.index,
-                            &changeset,
-                            Some(&infos),
-                        )? {
-                            Either::Right(value) => value,
-                            Either::Left(_) => {
-                                return Err(HypercoreError::InvalidOperation {
-                                    context: format!(
-                                        "Could not read offset for index {} from tree",
-                                        block.index
-                                    ),
-                                });
+                        let mut instructions = instructions;
+                        let mut infos: Vec<StoreInfo> = vec![];
+                        loop {
+                            infos.extend(self.storage.read_infos_to_vec(&instructions).await?);
+                            match self.tree.byte_offset_in_changeset(
+                                block.index,
+                                &changeset,
+                                Some(&infos),
+                            )? {
+                                Either::Right(value) => {
+                                    break value;
+                                }
+                                Either::Left(new_instructions) => {
+                                    instructions = new_instructions;
+                                }
                             }
                         }
                     }
@@ -711,15 +719,21 @@ impl Hypercore {
         match self.tree.verify_proof(proof, &self.key_pair.public, None)? {
             Either::Right(value) => Ok(value),
             Either::Left(instructions) => {
-                let infos = self.storage.read_infos_to_vec(&instructions).await?;
-                match self
-                    .tree
-                    .verify_proof(proof, &self.key_pair.public, Some(&infos))?
-                {
-                    Either::Right(value) => Ok(value),
-                    Either::Left(_) => Err(HypercoreError::InvalidOperation {
-                        context: "Could not verify proof from tree".to_string(),
-                    }),
+                let mut instructions = instructions;
+                let mut infos: Vec<StoreInfo> = vec![];
+                loop {
+                    infos.extend(self.storage.read_infos_to_vec(&instructions).await?);
+                    match self
+                        .tree
+                        .verify_proof(proof, &self.key_pair.public, Some(&infos))?
+                    {
+                        Either::Right(value) => {
+                            return Ok(value);
+                        }
+                        Either::Left(new_instructions) => {
+                            instructions = new_instructions;
+                        }
+                    }
                 }
             }
         }
